@@ -2,7 +2,7 @@
 # Engine M: Expression::action / complex_frames are executed symbolically (MIR) on
 #   * every operator variant over OPAQUE children (recursive calls on opaque subtrees return the
 #     induction hypothesis) -> one inductive step covers every depth and shape,
-#   * every leaf variant (payloads symbolic), format lists of length 1..3 with symbolic last element;
+#   * every leaf variant (payloads symbolic), format lists of length 0..3 with symbolic last element;
 # Size::mult / byte_size / TimeSpec::secs on every unit with a symbolic 64-bit count, both MIR profiles.
 # Engine K (Kani): the same unit obligations and all leaf kinds on the compiled crate.
 import time
@@ -115,7 +115,7 @@ def run(ctx, rep, tier):
     for v in P.enum_variants.get("Action", []):
         fts = P.variant_field_types.get(("Action", v), [])
         if v in ("PrintFormatted", "FilePrintFormatted"):
-            for n in (1, 2, 3):
+            for n in (0, 1, 2, 3):
                 elems, ass = [], []
                 lastk = None
                 for i in range(n):
@@ -125,7 +125,7 @@ def run(ctx, rep, tier):
                     lastk = k
                 fmt = VecV(elems)
                 args = [fmt] if v == "PrintFormatted" else [opaque_str("file"), fmt]
-                spec_cf = True if v == "FilePrintFormatted" else (lastk != 3)
+                spec_cf = True if v == "FilePrintFormatted" else ((lastk != 3) if n else False)
                 cases.append(("action:%s[%d]" % (v, n), Adt("Expression", "Action", [Adt("Action", v, args)]), True, spec_cf, ass))
             continue
         args = [opaque_str("f%d" % i) if "String" in t else Opaque("payload") for i, t in enumerate(fts)]
@@ -201,9 +201,9 @@ def run(ctx, rep, tier):
     cov.update(explanation="inductive step over opaque subtrees for every Operator variant + every leaf variant of Test/Action/"
                "Global/Positional (enumerated from the current source) decided by z3 on the MIR of action()/complex_frames(); unit "
                "helpers for every unit with a symbolic u64 count in both MIR profiles; Kani harnesses on the compiled crate",
-               bounds=dict(depth="unbounded (induction over operator nodes)", format_list_len="1..3 (last element symbolic over 7 kinds)",
+               bounds=dict(depth="unbounded (induction over operator nodes)", format_list_len="0..3 (last element symbolic over 7 kinds)",
                            count="any u64"),
-               outside="empty format list (statement silent); format lists longer than 3",
+               outside="format lists longer than 3",
                samples=samples, evaluations=len(rep.queries), distinct_nontrivial=len(rep.queries))
     rep.coverage = cov
     rep.assumptions = ["induction hypothesis: helper values of subtrees are arbitrary booleans with complex_frames => action",
